@@ -134,6 +134,9 @@ def check_direct(case: Dict[str, Any]) -> CaseInfo:
     from hv.hta_io import quiet
 
     quiet()
+    k = case.get("scale", 1)
+    if k != 1:
+        case = dict(case, spans=[[i, ts / k, d / k] for i, ts, d in case["spans"]])
     spans = case["spans"]
     df = _frame(case)
     pa, da, ca = hta_call("call_stack.CallStackGraph", lambda: run_builder_a(df.copy()))
@@ -144,6 +147,8 @@ def check_direct(case: Dict[str, Any]) -> CaseInfo:
     nt = any(k in kinds for k in ("shared_start", "shared_end", "identical", "touching", "zero_at_touching_boundary",
                                   "zero_at_end", "zero_at_start"))
     classes = list(kinds) + [f"depth>={min(max_depth(spans), 3)}"]
+    if k != 1:
+        classes.append("fractional_times")
     if pa != pb:
         classes.append("builders_differ_on_zero_events")
     return CaseInfo(nontrivial=nt, classes=classes)
@@ -207,6 +212,12 @@ def check_file(case: Dict[str, Any]) -> CaseInfo:
         f1["ranks"][0]["rank"] = 1
         fcase["ranks"].append(f1["ranks"][0])
         families[1] = spans1
+    k = case.get("scale", 1)
+    if k != 1:
+        from hv.gen.files import scale_to_sub_microsecond
+
+        scale_to_sub_microsecond(fcase, k)  # loaded with HTA_DISABLE_NS_ROUNDING=1: the frames carry fractional times
+        families = {r: [[i, ts / k, dd / k] for i, ts, dd in sp] for r, sp in families.items()}
     with scratch_dir() as d:
         files = write_case(fcase, d)
         t = load_trace(files, d)
